@@ -200,11 +200,10 @@ def run(ck, w):
             if pb.reaches(bb, bb, removed_nodes=pbbs | yields):
                 cyc_without = True
         none_ret = False
-        carriers = set()
+        none_e = set()
         for e in prev:
-            carriers |= flow.result_carriers(pb, e.dest["l"])
-        for (sbb, tested, a, oth) in flow.discriminant_switches(pb, carriers):
-            none_t = a.get(0, oth)
+            none_e |= flow.none_edges(pb, e)[0]
+        for (sbb, none_t) in sorted(none_e):
             reach = pb.reachable(none_t, removed_nodes=pbbs)
             if any(r in reach for r in pb.return_blocks()) and not (pbbs & pb.reachable(none_t)):
                 none_ret = True
